@@ -11,7 +11,7 @@ from vlib.strategies import txs, chunk_policy, rlp_receipt, byte_string_1_33, U3
 
 ID = "C01"
 LEVEL = "exploration"
-RULE = ("Hypothesis-generated sign requests (6 key paths, v5/v1, tx ASTs with every push "
+RULE = ("histories of 1..3 sign requests on one manager and device; each request: Hypothesis-generated sign requests (6 key paths, v5/v1, tx ASTs with every push "
         "encoding, legacy/segwit, receipts, proofs up to 255x255) x device chunk policies and "
         "deviations; non-trivial = authorized request whose BTC payload spans >= 2 chunks, or "
         "any device deviation / malformed signature; distinct by fingerprint of the whole case")
